@@ -864,6 +864,12 @@ Section PresOpen.
     apply pres_bind; [apply Hap|]. intros h'. apply pres_bind; [apply IHv2|]. intros; apply pres_ret.
   Qed.
 
+  Lemma pres_cat_arrs : forall rest acc, pres (cat_arrs acc rest).
+  Proof.
+    induction rest as [|b r IH]; simpl; intros acc; [apply pres_ret|].
+    destruct b; try apply pres_raise. apply pres_bind; [apply pres_get_arr|]. intros o. apply IH.
+  Qed.
+
   Lemma pres_aset_write : forall a i v o,
     pres (fun s => (Done VNil, with_arrays s (set_nth a (mkArr (set_nth (Z.to_nat i) v (a_elems o)) (a_ty o)) (arrays s)))).
   Proof.
@@ -873,8 +879,8 @@ Section PresOpen.
   Ltac pres_auto :=
     repeat first
       [ apply pres_ret | apply pres_raise | apply pres_alloc_arr | apply pres_aset_write
-      | apply pres_compare_prim | apply pres_arith | apply Hap | apply pres_map_pairs
-      | apply pres_bind; [first [apply pres_get_arr | apply pres_map_arr]|intros ?]
+      | apply pres_compare_prim | apply pres_arith | apply Hap | apply pres_map_pairs | apply pres_cat_arrs
+      | apply pres_bind; [first [apply pres_get_arr | apply pres_map_arr | apply pres_cat_arrs]|intros ?]
       | match goal with |- pres (match ?x with _ => _ end) => destruct x end
       | match goal with |- pres (if ?x then _ else _) => destruct x end ].
 
@@ -1369,6 +1375,13 @@ Section NonInterference.
       - rewrite nth_error_set_nth_other in Hb by assumption. eapply (r_arr_ok _ _ R); eauto.
     Qed.
 
+    Lemma ni_cat_arrs : forall rest acc, Forall val_ok acc -> ni (Forall val_ok) (cat_arrs acc rest).
+    Proof.
+      induction rest as [|b r IH]; simpl; intros acc Ha; [apply ni_ret; assumption|].
+      destruct b; try apply ni_raise. eapply ni_bind; [apply ni_get_arr|]. intros o Ho; cbv beta in Ho.
+      apply IH. apply Forall_app. split; assumption.
+    Qed.
+
     Lemma ni_prim_apply : forall p args, Forall val_ok args -> ni val_ok (prim_apply ap p args).
     Proof.
       intros p args Hargs. destruct p; simpl.
@@ -1428,6 +1441,13 @@ Section NonInterference.
         destruct a; try apply ni_raise; try (apply ni_ret; exact I).
         + destruct (val_list _); [apply ni_ret; exact I|apply ni_raise].
         + eapply ni_bind; [apply ni_get_arr|]. intros o Ho; cbv beta in Ho. apply ni_ret. exact I.
+      - (* PConcat *)
+        destruct (existsb _ args); [apply ni_raise|].
+        destruct args as [|a rest]; [apply ni_raise|]. inversion Hargs; subst.
+        destruct a; try apply ni_raise.
+        eapply ni_bind; [apply ni_get_arr|]. intros o Ho; cbv beta in Ho.
+        eapply ni_bind; [apply ni_cat_arrs; assumption|]. intros els Hels.
+        apply ni_alloc_arr; assumption.
       - (* PMap *)
         destruct args as [|f [|c [|? ?]]]; try apply ni_raise.
         inversion Hargs as [|? ? Hf Hr]; subst. inversion Hr; subst.
@@ -1845,10 +1865,13 @@ Proof.
     - destruct t; [apply quiet_ret|]. apply quiet_state. intros s.
       destruct (type_of depth_limit (arrays s) y). split; intros; discriminate.
     - intros t1. apply quiet_bind; [apply IH|]. intros; apply quiet_ret. }
+  assert (Hcat : forall rest acc, quiet (cat_arrs acc rest)).
+  { induction rest as [|b r IH]; simpl; intros acc; [apply quiet_ret|].
+    destruct b; try apply quiet_raise. apply quiet_bind; [apply Hget|]. intros o. apply IH. }
   destruct p; simpl;
     repeat first
       [ apply quiet_ret | apply quiet_raise | apply Halloc | apply Hcmp | apply Harith | apply Hap | apply Hmp
-      | apply quiet_bind; [first [apply Hget | apply Hma]|intros ?]
+      | apply quiet_bind; [first [apply Hget | apply Hma | apply Hcat]|intros ?]
       | apply quiet_state; intros ?; split; intros; discriminate
       | match goal with |- quiet (match ?x with _ => _ end) => destruct x end
       | match goal with |- quiet (if ?x then _ else _) => destruct x end ].
